@@ -79,7 +79,10 @@ enum Op {
 }
 
 fn mask_str(m: u8) -> String {
-    let v: Vec<&str> = (0..NF).filter(|f| m & (1 << f) != 0).map(|f| FAM_NAME[f]).collect();
+    let v: Vec<&str> = (0..NF)
+        .filter(|f| m & (1 << f) != 0)
+        .map(|f| FAM_NAME[f])
+        .collect();
     format!("{{{}}}", v.join(","))
 }
 
@@ -121,7 +124,12 @@ fn replay_code(cfg: &Cfg, ops: &[Op]) -> String {
 }
 
 fn parse_replay_code(code: &str) -> Option<(Cfg, Vec<Op>)> {
-    let mut cfg = Cfg { helper: [0; NP], timer: true, shards: 1, mode: Mode::Glue };
+    let mut cfg = Cfg {
+        helper: [0; NP],
+        timer: true,
+        shards: 1,
+        mode: Mode::Glue,
+    };
     let mut ops = Vec::new();
     for part in code.split(';') {
         let (k, v) = part.split_once('=')?;
@@ -141,11 +149,19 @@ fn parse_replay_code(code: &str) -> Option<(Cfg, Vec<Op>)> {
                     let n: Vec<u8> = w[1..].split('.').filter_map(|x| x.parse().ok()).collect();
                     let op = match (&w[..1], n.len()) {
                         ("E", 2) if (n[0] as usize) < NP && n[1] < 8 => Op::Ev(Ev::Est(n[0], n[1])),
-                        ("R", 2) if (n[0] as usize) < NP && (n[1] as usize) < NF => Op::Ev(Ev::Eor(n[0], n[1])),
+                        ("R", 2) if (n[0] as usize) < NP && (n[1] as usize) < NF => {
+                            Op::Ev(Ev::Eor(n[0], n[1]))
+                        }
                         ("W", 1) if (n[0] as usize) < NP => Op::Ev(Ev::Wd(n[0])),
                         ("T", 0) => Op::Ev(Ev::Timer),
                         ("S", 0) => Op::Sess,
-                        ("I", 3) if (n[0] as usize) < NTF && (n[1] as usize) < NPFX && (n[2] as usize) < NSRC => Op::Ins(n[0], n[1], n[2]),
+                        ("I", 3)
+                            if (n[0] as usize) < NTF
+                                && (n[1] as usize) < NPFX
+                                && (n[2] as usize) < NSRC =>
+                        {
+                            Op::Ins(n[0], n[1], n[2])
+                        }
                         _ => return None,
                     };
                     ops.push(op);
@@ -213,7 +229,17 @@ impl Cfg {
         Json::obj(vec![
             (
                 "configured_helpers",
-                Json::arr((0..NP).map(|p| Json::s(format!("p{}:{}", p + 1, if self.helper[p] == 0 { "none".to_string() } else { mask_str(self.helper[p]) })))),
+                Json::arr((0..NP).map(|p| {
+                    Json::s(format!(
+                        "p{}:{}",
+                        p + 1,
+                        if self.helper[p] == 0 {
+                            "none".to_string()
+                        } else {
+                            mask_str(self.helper[p])
+                        }
+                    ))
+                })),
             ),
             ("timer", Json::Bool(self.timer)),
             ("table_shards", Json::Int(self.shards as i128)),
@@ -267,22 +293,37 @@ impl Model {
                 }
             }
         }
-        Model { helper: cfg.helper, deferred: cfg.deferred(), st, stray: [0; NP], timer_fired: false }
+        Model {
+            helper: cfg.helper,
+            deferred: cfg.deferred(),
+            st,
+            stray: [0; NP],
+            timer_fired: false,
+        }
     }
     fn is_deferred(&self, f: usize) -> bool {
         f < NF && self.deferred & (1 << f) != 0
     }
     fn must_hold(&self, f: usize) -> bool {
-        self.is_deferred(f) && !self.timer_fired && (0..NP).any(|p| matches!(self.st[p][f], St::Awaiting | St::Negotiated))
+        self.is_deferred(f)
+            && !self.timer_fired
+            && (0..NP).any(|p| matches!(self.st[p][f], St::Awaiting | St::Negotiated))
     }
     fn must_release(&self, f: usize) -> bool {
-        self.is_deferred(f) && (self.timer_fired || (0..NP).all(|p| matches!(self.st[p][f], St::NotCfg | St::Resolved)))
+        self.is_deferred(f)
+            && (self.timer_fired
+                || (0..NP).all(|p| matches!(self.st[p][f], St::NotCfg | St::Resolved)))
     }
     fn blocker_fact(&self, f: usize) -> &'static str {
-        if (0..NP).any(|p| self.st[p][f] == St::Negotiated) { "peer-awaiting-eor" } else { "peer-not-back-yet" }
+        if (0..NP).any(|p| self.st[p][f] == St::Negotiated) {
+            "peer-awaiting-eor"
+        } else {
+            "peer-not-back-yet"
+        }
     }
     fn all_must_release(&self) -> bool {
-        (0..NF).all(|f| !self.is_deferred(f) || self.must_release(f)) && (self.timer_fired || self.stray.iter().all(|s| *s == 0))
+        (0..NF).all(|f| !self.is_deferred(f) || self.must_release(f))
+            && (self.timer_fired || self.stray.iter().all(|s| *s == 0))
     }
     fn any_must_hold(&self) -> bool {
         (0..NF).any(|f| self.must_hold(f))
@@ -308,7 +349,10 @@ impl Model {
                         // negotiated a deferred family it is not configured for; or came
                         // back with a family it had already resolved (EOR / drop) — the
                         // statement does not say whether it blocks again
-                        (St::NotCfg, true) | (St::Resolved, true) | (St::Maybe, true) | (St::AwaitingMaybe, true) => St::Maybe,
+                        (St::NotCfg, true)
+                        | (St::Resolved, true)
+                        | (St::Maybe, true)
+                        | (St::AwaitingMaybe, true) => St::Maybe,
                     };
                 }
                 self.stray[p] = m & !self.deferred;
@@ -347,7 +391,10 @@ impl Model {
             if !self.is_deferred(f) {
                 continue;
             }
-            let v: Vec<String> = (0..NP).filter(|p| self.st[*p][f] != St::NotCfg).map(|p| format!("p{}={:?}", p + 1, self.st[p][f])).collect();
+            let v: Vec<String> = (0..NP)
+                .filter(|p| self.st[*p][f] != St::NotCfg)
+                .map(|p| format!("p{}={:?}", p + 1, self.st[p][f]))
+                .collect();
             s.push_str(&format!("{}:[{}] ", FAM_NAME[f], v.join(" ")));
         }
         if self.timer_fired {
@@ -373,15 +420,32 @@ struct Env {
 const ATTR_POOL: u32 = 256;
 
 fn cand_nlri(f: usize, k: u32) -> packet::Nlri {
-    let v4 = bgp::Ipv4Net { addr: Ipv4Addr::new(10, f as u8, k as u8, 0), mask: 24 };
-    let v6 = bgp::Ipv6Net { addr: Ipv6Addr::new(0x2001, 0xdb8, f as u16, k as u16, 0, 0, 0, 0), mask: 64 };
-    let rd = packet::rd::RouteDistinguisher::TwoOctetAs { admin: 65000, assigned: 1 };
+    let v4 = bgp::Ipv4Net {
+        addr: Ipv4Addr::new(10, f as u8, k as u8, 0),
+        mask: 24,
+    };
+    let v6 = bgp::Ipv6Net {
+        addr: Ipv6Addr::new(0x2001, 0xdb8, f as u16, k as u16, 0, 0, 0, 0),
+        mask: 64,
+    };
+    let rd = packet::rd::RouteDistinguisher::TwoOctetAs {
+        admin: 65000,
+        assigned: 1,
+    };
     let labels = || packet::mpls::MplsLabelStack::new(vec![packet::mpls::MplsLabel::new(100)]);
     match f {
         0 => packet::Nlri::V4(v4),
         1 => packet::Nlri::V6(v6),
-        2 => packet::Nlri::VpnV4(packet::vpn::VpnV4Nlri { labels: labels(), rd, prefix: v4 }),
-        _ => packet::Nlri::VpnV6(packet::vpn::VpnV6Nlri { labels: labels(), rd, prefix: v6 }),
+        2 => packet::Nlri::VpnV4(packet::vpn::VpnV4Nlri {
+            labels: labels(),
+            rd,
+            prefix: v4,
+        }),
+        _ => packet::Nlri::VpnV6(packet::vpn::VpnV6Nlri {
+            labels: labels(),
+            rd,
+            prefix: v6,
+        }),
     }
 }
 
@@ -429,10 +493,23 @@ impl Env {
             while (by_shard[0].len() < NPFX / 2 || by_shard[1].len() < NPFX / 2) && k < 200 {
                 let n = cand_nlri(f, k);
                 k += 1;
-                scratch.insert_route(sources[0].clone(), fam_of(f), packet::PathNlri::new(n.clone()), Some(nh[f]), mk_attrs(0), None, 0);
+                scratch.insert_route(
+                    sources[0].clone(),
+                    fam_of(f),
+                    packet::PathNlri::new(n.clone()),
+                    Some(nh[f]),
+                    mk_attrs(0),
+                    None,
+                    0,
+                );
                 for s in 0..2 {
                     let t = scratch.shards[s].lock().unwrap();
-                    if t.rtable.collect_loc_rib_paths(&fam_of(f)).iter().any(|c| c.net == n) && by_shard[s].len() < NPFX / 2 {
+                    if t.rtable
+                        .collect_loc_rib_paths(&fam_of(f))
+                        .iter()
+                        .any(|c| c.net == n)
+                        && by_shard[s].len() < NPFX / 2
+                    {
                         by_shard[s].push(n.clone());
                     }
                 }
@@ -450,7 +527,15 @@ impl Env {
                 net_index.insert(nlri[f][x].clone(), (f as u8, x as u8));
             }
         }
-        Env { peers, observer: IpAddr::V4(Ipv4Addr::new(10, 0, 0, 100)), sources, nlri, nh, net_index, attrs: (0..ATTR_POOL).map(mk_attrs).collect() }
+        Env {
+            peers,
+            observer: IpAddr::V4(Ipv4Addr::new(10, 0, 0, 100)),
+            sources,
+            nlri,
+            nh,
+            net_index,
+            attrs: (0..ATTR_POOL).map(mk_attrs).collect(),
+        }
     }
 }
 
@@ -530,8 +615,13 @@ fn summarize_outputs(outs: &[RestartingOutput]) -> String {
     for o in outs {
         v.push(match o {
             RestartingOutput::DeferFamilies(f) => format!("DeferFamilies({})", fams_str(f)),
-            RestartingOutput::StartDeferralTimer(d) => format!("StartDeferralTimer({})", if d.is_some() { "on" } else { "disabled" }),
-            RestartingOutput::FamilyDeferralComplete(f) => format!("FamilyDeferralComplete({})", fams_str(&[*f])),
+            RestartingOutput::StartDeferralTimer(d) => format!(
+                "StartDeferralTimer({})",
+                if d.is_some() { "on" } else { "disabled" }
+            ),
+            RestartingOutput::FamilyDeferralComplete(f) => {
+                format!("FamilyDeferralComplete({})", fams_str(&[*f]))
+            }
             RestartingOutput::EndDeferral(f) => format!("EndDeferral({})", fams_str(f)),
         });
     }
@@ -539,7 +629,14 @@ fn summarize_outputs(outs: &[RestartingOutput]) -> String {
 }
 
 fn fams_str(f: &[Family]) -> String {
-    let mut v: Vec<String> = f.iter().map(|x| fam_index(*x).map(|i| FAM_NAME[i].to_string()).unwrap_or_else(|| format!("{:?}", x))).collect();
+    let mut v: Vec<String> = f
+        .iter()
+        .map(|x| {
+            fam_index(*x)
+                .map(|i| FAM_NAME[i].to_string())
+                .unwrap_or_else(|| format!("{:?}", x))
+        })
+        .collect();
     v.sort();
     v.join(",")
 }
@@ -549,7 +646,14 @@ fn mask_families(m: u8) -> Vec<Family> {
 }
 
 fn make_peer_context() -> Arc<std::sync::Mutex<PeerContext>> {
-    let fsm = crate::fsm::PeerFsm::new(u32::from(Ipv4Addr::new(1, 0, 0, 1)), 65001, vec![], 90, 0, FnvHashMap::default());
+    let fsm = crate::fsm::PeerFsm::new(
+        u32::from(Ipv4Addr::new(1, 0, 0, 1)),
+        65001,
+        vec![],
+        90,
+        0,
+        FnvHashMap::default(),
+    );
     let conn_arbiter = Arc::new(std::sync::Mutex::new(ConnArbiter::new(fsm)));
     Arc::new(std::sync::Mutex::new(PeerContext {
         conn_arbiter,
@@ -567,10 +671,22 @@ impl<'a> Sys<'a> {
     /// Startup as `serve` does it for `--graceful-restart` with a config file:
     /// `RestartingDeferral::new(configured GR peers)`, `start_deferral_families`
     /// for the `DeferFamilies` output, `Global.selection_deferral = Some(..)`.
-    async fn start(env: &'a Env, cfg: &'a Cfg, global: GlobalHandle, trace: Option<&mut Vec<String>>) -> Sys<'a> {
+    async fn start(
+        env: &'a Env,
+        cfg: &'a Cfg,
+        global: GlobalHandle,
+        trace: Option<&mut Vec<String>>,
+    ) -> Sys<'a> {
         let tables: TableHandle = Arc::new(TableManager::new(cfg.shards as usize));
-        let gr_peers: FnvHashMap<IpAddr, Vec<Family>> = (0..NP).filter(|p| cfg.helper[*p] != 0).map(|p| (env.peers[p], mask_families(cfg.helper[p]))).collect();
-        let dur = if cfg.timer { Some(Duration::from_secs(3600)) } else { None };
+        let gr_peers: FnvHashMap<IpAddr, Vec<Family>> = (0..NP)
+            .filter(|p| cfg.helper[*p] != 0)
+            .map(|p| (env.peers[p], mask_families(cfg.helper[p])))
+            .collect();
+        let dur = if cfg.timer {
+            Some(Duration::from_secs(3600))
+        } else {
+            None
+        };
         let (deferral, init_outputs) = RestartingDeferral::new(gr_peers, dur);
         if let Some(t) = trace {
             t.push(format!("startup -> {}", summarize_outputs(&init_outputs)));
@@ -589,7 +705,16 @@ impl<'a> Sys<'a> {
             global.write().await.selection_deferral = Some(deferral);
         }
         let rx = tables.register_peer(env.observer, FnvHashSet::default(), |_| {});
-        Sys { env, cfg, tables, global, rx, sessions: (0..NP).map(|_| None).collect(), sess_gr: [false; NP], unknown_net: false }
+        Sys {
+            env,
+            cfg,
+            tables,
+            global,
+            rx,
+            sessions: (0..NP).map(|_| None).collect(),
+            sess_gr: [false; NP],
+            unknown_net: false,
+        }
     }
 
     async fn timer_armed(&self) -> bool {
@@ -612,7 +737,11 @@ impl<'a> Sys<'a> {
                 let addr = self.env.peers[p as usize];
                 let rd_outputs = {
                     let mut server = self.global.write().await;
-                    if let Some(rd) = &mut server.selection_deferral { rd.process(RestartingInput::PeerWithdrawn(addr)) } else { vec![] }
+                    if let Some(rd) = &mut server.selection_deferral {
+                        rd.process(RestartingInput::PeerWithdrawn(addr))
+                    } else {
+                        vec![]
+                    }
                 };
                 if let Some(t) = trace {
                     t.push(format!("  machine -> {}", summarize_outputs(&rd_outputs)));
@@ -630,7 +759,10 @@ impl<'a> Sys<'a> {
                         let (is_restarting, rd_outputs) = {
                             let mut server = self.global.write().await;
                             if let Some(rd) = &mut server.selection_deferral {
-                                (true, rd.process(RestartingInput::PeerEstablished(addr, fams)))
+                                (
+                                    true,
+                                    rd.process(RestartingInput::PeerEstablished(addr, fams)),
+                                )
                             } else {
                                 (false, vec![])
                             }
@@ -639,7 +771,10 @@ impl<'a> Sys<'a> {
                             t.push(format!("  machine -> {}", summarize_outputs(&rd_outputs)));
                         }
                         if is_restarting {
-                            if let Some(dur) = process_restarting_outputs(rd_outputs, &self.global, &self.tables).await {
+                            if let Some(dur) =
+                                process_restarting_outputs(rd_outputs, &self.global, &self.tables)
+                                    .await
+                            {
                                 let global_c = self.global.clone();
                                 let tables_c = self.tables.clone();
                                 let handle = tokio::spawn(async move {
@@ -652,14 +787,30 @@ impl<'a> Sys<'a> {
                         }
                     }
                     Mode::Session => {
-                        let negotiated_gr = if fams.is_empty() { None } else { Some(NegotiatedGr { families: fams, restart_time: Duration::from_secs(90), notification_enabled: false }) };
+                        let negotiated_gr = if fams.is_empty() {
+                            None
+                        } else {
+                            Some(NegotiatedGr {
+                                families: fams,
+                                restart_time: Duration::from_secs(90),
+                                notification_enabled: false,
+                            })
+                        };
                         self.sess_gr[p as usize] = negotiated_gr.is_some();
                         if self.sessions[p as usize].is_none() {
-                            self.sessions[p as usize] = Some(PeerSession::new_for_test(addr, make_peer_context(), self.tables.clone()));
+                            self.sessions[p as usize] = Some(PeerSession::new_for_test(
+                                addr,
+                                make_peer_context(),
+                                self.tables.clone(),
+                            ));
                         }
                         let global = self.global.clone();
                         let s = self.sessions[p as usize].as_mut().unwrap();
-                        s.process_effects(vec![GlobalEffect::GrSessionEstablished { negotiated_gr }], &global).await;
+                        s.process_effects(
+                            vec![GlobalEffect::GrSessionEstablished { negotiated_gr }],
+                            &global,
+                        )
+                        .await;
                     }
                 }
                 true
@@ -671,12 +822,17 @@ impl<'a> Sys<'a> {
                     Mode::Glue => {
                         let rd_outputs = {
                             let mut server = self.global.write().await;
-                            if let Some(rd) = &mut server.selection_deferral { rd.process(RestartingInput::EorReceived(addr, family)) } else { vec![] }
+                            if let Some(rd) = &mut server.selection_deferral {
+                                rd.process(RestartingInput::EorReceived(addr, family))
+                            } else {
+                                vec![]
+                            }
                         };
                         if let Some(t) = trace {
                             t.push(format!("  machine -> {}", summarize_outputs(&rd_outputs)));
                         }
-                        let _ = process_restarting_outputs(rd_outputs, &self.global, &self.tables).await;
+                        let _ = process_restarting_outputs(rd_outputs, &self.global, &self.tables)
+                            .await;
                         true
                     }
                     Mode::Session => {
@@ -686,7 +842,8 @@ impl<'a> Sys<'a> {
                         }
                         let global = self.global.clone();
                         let s = self.sessions[p as usize].as_mut().unwrap();
-                        s.process_effects(vec![GlobalEffect::GrEorReceived { family }], &global).await;
+                        s.process_effects(vec![GlobalEffect::GrEorReceived { family }], &global)
+                            .await;
                         true
                     }
                 }
@@ -700,7 +857,11 @@ impl<'a> Sys<'a> {
             fam_of(f),
             packet::PathNlri::new(self.env.nlri[f][x].clone()),
             Some(self.env.nh[f]),
-            if tag < ATTR_POOL { self.env.attrs[tag as usize].clone() } else { mk_attrs(tag) },
+            if tag < ATTR_POOL {
+                self.env.attrs[tag as usize].clone()
+            } else {
+                mk_attrs(tag)
+            },
             None,
             0,
         );
@@ -717,8 +878,15 @@ impl<'a> Sys<'a> {
                             .current_paths
                             .iter()
                             .map(|p| {
-                                let src = (0..NSRC).find(|i| self.env.peers[*i] == p.source.remote_addr).unwrap_or(99) as u8;
-                                let tag = p.attr.iter().find(|a| a.code() == packet::Attribute::MULTI_EXIT_DESC).and_then(|a| a.value()).unwrap_or(u32::MAX);
+                                let src = (0..NSRC)
+                                    .find(|i| self.env.peers[*i] == p.source.remote_addr)
+                                    .unwrap_or(99) as u8;
+                                let tag = p
+                                    .attr
+                                    .iter()
+                                    .find(|a| a.code() == packet::Attribute::MULTI_EXIT_DESC)
+                                    .and_then(|a| a.value())
+                                    .unwrap_or(u32::MAX);
                                 (src, tag)
                             })
                             .collect();
@@ -744,7 +912,17 @@ impl<'a> Sys<'a> {
 fn changes_str(ch: &[Change]) -> String {
     let v: Vec<String> = ch
         .iter()
-        .map(|(f, x, p)| format!("{}#{}:[{}]", FAM_NAME[*f as usize], x, p.iter().map(|(s, t)| format!("src{}/med{}", s + 1, t)).collect::<Vec<_>>().join(",")))
+        .map(|(f, x, p)| {
+            format!(
+                "{}#{}:[{}]",
+                FAM_NAME[*f as usize],
+                x,
+                p.iter()
+                    .map(|(s, t)| format!("src{}/med{}", s + 1, t))
+                    .collect::<Vec<_>>()
+                    .join(",")
+            )
+        })
         .collect();
     format!("[{}]", v.join(" "))
 }
@@ -778,13 +956,38 @@ impl Judge {
     }
 }
 
-fn viol(clause: &'static str, ev: &'static str, fact: &str, what: String, step: usize, observed: String, expected: String) -> Viol {
-    Viol { clause, ev, fact: fact.to_string(), what, step, observed, expected }
+fn viol(
+    clause: &'static str,
+    ev: &'static str,
+    fact: &str,
+    what: String,
+    step: usize,
+    observed: String,
+    expected: String,
+) -> Viol {
+    Viol {
+        clause,
+        ev,
+        fact: fact.to_string(),
+        what,
+        step,
+        observed,
+        expected,
+    }
 }
 
 /// One insert through the real `insert_route`, judged against the model.
 /// `probe`: the insert was added by the oracle to decide whether a family was released.
-fn judged_insert(sys: &mut Sys, j: &mut Judge, st: &mut Stats, f: usize, x: usize, s: usize, step: usize, evk: &'static str) -> Result<bool, Viol> {
+fn judged_insert(
+    sys: &mut Sys,
+    j: &mut Judge,
+    st: &mut Stats,
+    f: usize,
+    x: usize,
+    s: usize,
+    step: usize,
+    evk: &'static str,
+) -> Result<bool, Viol> {
     let was_nonempty = j.table_nonempty(f);
     let tag = j.next_tag;
     j.next_tag += 1;
@@ -809,10 +1012,17 @@ fn judged_insert(sys: &mut Sys, j: &mut Judge, st: &mut Stats, f: usize, x: usiz
             "held",
             evk,
             &format!("insert-announced-while-{}", j.model.blocker_fact(f)),
-            format!("a route inserted into deferred family {} reached the peer channel although a helper peer is still pending", FAM_NAME[f]),
+            format!(
+                "a route inserted into deferred family {} reached the peer channel although a helper peer is still pending",
+                FAM_NAME[f]
+            ),
             step,
             changes_str(&ch),
-            format!("no NlriChange for {} (model: {})", FAM_NAME[f], j.model.describe()),
+            format!(
+                "no NlriChange for {} (model: {})",
+                FAM_NAME[f],
+                j.model.describe()
+            ),
         ));
     }
     if !announced && must_announce {
@@ -821,7 +1031,10 @@ fn judged_insert(sys: &mut Sys, j: &mut Judge, st: &mut Stats, f: usize, x: usiz
                 "non-deferred",
                 evk,
                 "insert-silent",
-                format!("a route inserted into {} (not a deferred family) was not announced", FAM_NAME[f]),
+                format!(
+                    "a route inserted into {} (not a deferred family) was not announced",
+                    FAM_NAME[f]
+                ),
                 step,
                 "no NlriChange".into(),
                 "one NlriChange".into(),
@@ -830,8 +1043,20 @@ fn judged_insert(sys: &mut Sys, j: &mut Judge, st: &mut Stats, f: usize, x: usiz
         return Err(viol(
             "terminates",
             evk,
-            if j.model.timer_fired { "insert-silent-after-timer" } else { "insert-silent-after-release" },
-            format!("{} must be released (no helper pending / timer fired) but a later insert is still suppressed{}", FAM_NAME[f], if sys.cfg.shards > 1 { " (on at least one shard)" } else { "" }),
+            if j.model.timer_fired {
+                "insert-silent-after-timer"
+            } else {
+                "insert-silent-after-release"
+            },
+            format!(
+                "{} must be released (no helper pending / timer fired) but a later insert is still suppressed{}",
+                FAM_NAME[f],
+                if sys.cfg.shards > 1 {
+                    " (on at least one shard)"
+                } else {
+                    ""
+                }
+            ),
             step,
             "no NlriChange".into(),
             format!("one NlriChange (model: {})", j.model.describe()),
@@ -859,7 +1084,10 @@ fn judged_insert(sys: &mut Sys, j: &mut Judge, st: &mut Stats, f: usize, x: usiz
                     "exactly-once",
                     evk,
                     "released-without-announcing-held-prefixes",
-                    format!("{} stopped deferring but the prefixes received meanwhile were never announced", FAM_NAME[f]),
+                    format!(
+                        "{} stopped deferring but the prefixes received meanwhile were never announced",
+                        FAM_NAME[f]
+                    ),
                     step,
                     changes_str(&ch),
                     "a dump of every held prefix at release".into(),
@@ -867,7 +1095,11 @@ fn judged_insert(sys: &mut Sys, j: &mut Judge, st: &mut Stats, f: usize, x: usiz
             }
             j.obs_released[f] = true;
         }
-        st.add(if deferred { "insert:announced-after-release" } else { "insert:announced-non-deferred" });
+        st.add(if deferred {
+            "insert:announced-after-release"
+        } else {
+            "insert:announced-non-deferred"
+        });
     } else {
         if deferred {
             j.held_inserts[f] += 1;
@@ -887,13 +1119,21 @@ const NEW_SESSION_ADDR: IpAddr = IpAddr::V4(Ipv4Addr::new(10, 0, 0, 50));
 /// buffers the initial dump.
 async fn establish_session(tables: &TableHandle) -> PeerSession {
     let mut s = PeerSession::new_for_test(NEW_SESSION_ADDR, make_peer_context(), tables.clone());
-    let mp: Vec<packet::Capability> = (0..NTF).map(|f| packet::Capability::MultiProtocol(fam_of(f))).collect();
+    let mp: Vec<packet::Capability> = (0..NTF)
+        .map(|f| packet::Capability::MultiProtocol(fam_of(f)))
+        .collect();
     s.local_cap = mp.clone();
     s.codec = bgp::PeerCodec::negotiate(&mp, &mp);
     s.state.remote_cap.store(Some(Arc::new(mp)));
     s.state.remote_asn.store(65200, Ordering::Relaxed);
-    s.state.remote_id.store(u32::from(Ipv4Addr::new(9, 9, 9, 9)), Ordering::Relaxed);
-    s.on_established(SocketAddr::new(IpAddr::V4(Ipv4Addr::new(127, 0, 0, 1)), 179), SocketAddr::new(NEW_SESSION_ADDR, 30000)).await;
+    s.state
+        .remote_id
+        .store(u32::from(Ipv4Addr::new(9, 9, 9, 9)), Ordering::Relaxed);
+    s.on_established(
+        SocketAddr::new(IpAddr::V4(Ipv4Addr::new(127, 0, 0, 1)), 179),
+        SocketAddr::new(NEW_SESSION_ADDR, 30000),
+    )
+    .await;
     s
 }
 
@@ -902,7 +1142,11 @@ fn drain_session_reach(env: &Env, s: &mut PeerSession) -> Vec<(u8, u8)> {
     let mut out = Vec::new();
     for f in 0..NTF {
         let fam = fam_of(f);
-        let msgs = s.pending.get_mut(&fam).map(|p| p.drain_messages(fam)).unwrap_or_default();
+        let msgs = s
+            .pending
+            .get_mut(&fam)
+            .map(|p| p.drain_messages(fam))
+            .unwrap_or_default();
         for m in msgs {
             if let bgp::Message::Update(bgp::Update::Reach { entries, .. }) = m {
                 for e in entries {
@@ -937,13 +1181,21 @@ fn deliver_session_events(s: &mut PeerSession) -> usize {
 }
 
 fn sent_str(v: &[(u8, u8)]) -> String {
-    let w: Vec<String> = v.iter().map(|(f, x)| format!("{}#{}", FAM_NAME[*f as usize], x)).collect();
+    let w: Vec<String> = v
+        .iter()
+        .map(|(f, x)| format!("{}#{}", FAM_NAME[*f as usize], x))
+        .collect();
     format!("[{}]", w.join(" "))
 }
 
 /// `Op::Sess`: a peer establishes now.  While a family must be held, its routes
 /// must not be advertised to the new session by the initial dump either.
-async fn judged_new_session(sys: &mut Sys<'_>, j: &mut Judge, st: &mut Stats, step: usize) -> Result<(), Viol> {
+async fn judged_new_session(
+    sys: &mut Sys<'_>,
+    j: &mut Judge,
+    st: &mut Stats,
+    step: usize,
+) -> Result<(), Viol> {
     let mut s = establish_session(&sys.tables).await;
     let sent = drain_session_reach(sys.env, &mut s);
     // the neighbour asks for a route refresh of every family (real do_route_refresh)
@@ -965,10 +1217,17 @@ async fn judged_new_session(sys: &mut Sys<'_>, j: &mut Judge, st: &mut Stats, st
                     "held",
                     "initial-dump",
                     "held-family-sent-to-new-session",
-                    format!("a peer that established while {} is still deferred was sent that family's held routes in its initial dump", FAM_NAME[f]),
+                    format!(
+                        "a peer that established while {} is still deferred was sent that family's held routes in its initial dump",
+                        FAM_NAME[f]
+                    ),
                     step,
                     sent_str(&sent),
-                    format!("no route of {} (model: {})", FAM_NAME[f], j.model.describe()),
+                    format!(
+                        "no route of {} (model: {})",
+                        FAM_NAME[f],
+                        j.model.describe()
+                    ),
                 ));
             }
             if refreshed.iter().any(|e| e.0 as usize == f) {
@@ -976,10 +1235,17 @@ async fn judged_new_session(sys: &mut Sys<'_>, j: &mut Judge, st: &mut Stats, st
                     "held",
                     "route-refresh",
                     "held-family-sent-on-route-refresh",
-                    format!("a route refresh for {} while it is still deferred made the session advertise the held routes", FAM_NAME[f]),
+                    format!(
+                        "a route refresh for {} while it is still deferred made the session advertise the held routes",
+                        FAM_NAME[f]
+                    ),
                     step,
                     sent_str(&refreshed),
-                    format!("no route of {} (model: {})", FAM_NAME[f], j.model.describe()),
+                    format!(
+                        "no route of {} (model: {})",
+                        FAM_NAME[f],
+                        j.model.describe()
+                    ),
                 ));
             }
             if j.table_nonempty(f) {
@@ -990,7 +1256,13 @@ async fn judged_new_session(sys: &mut Sys<'_>, j: &mut Judge, st: &mut Stats, st
             // held check above is known not to be vacuous
             for x in 0..NPFX {
                 if !j.tbl[f][x].is_empty() {
-                    st.add(if sent.iter().any(|e| e.0 as usize == f && e.1 as usize == x) { "initial-dump:released-prefix-sent" } else { "unjudged:initial-dump-released-prefix-not-sent" });
+                    st.add(
+                        if sent.iter().any(|e| e.0 as usize == f && e.1 as usize == x) {
+                            "initial-dump:released-prefix-sent"
+                        } else {
+                            "unjudged:initial-dump-released-prefix-not-sent"
+                        },
+                    );
                 }
             }
         } else {
@@ -1001,12 +1273,27 @@ async fn judged_new_session(sys: &mut Sys<'_>, j: &mut Judge, st: &mut Stats, st
 }
 
 /// Execute one op list against a fresh coupled system and judge every step.
-async fn run_ops(env: &Env, cfg: &Cfg, ops: &[Op], global: GlobalHandle, st: &mut Stats, want_trace: bool) -> RunOut {
+async fn run_ops(
+    env: &Env,
+    cfg: &Cfg,
+    ops: &[Op],
+    global: GlobalHandle,
+    st: &mut Stats,
+    want_trace: bool,
+) -> RunOut {
     let mut trace: Vec<String> = Vec::new();
-    let mut sys = Sys::start(env, cfg, global, if want_trace { Some(&mut trace) } else { None }).await;
+    let mut sys = Sys::start(
+        env,
+        cfg,
+        global,
+        if want_trace { Some(&mut trace) } else { None },
+    )
+    .await;
     let mut j = Judge {
         model: Model::new(cfg),
-        tbl: (0..NTF).map(|_| (0..NPFX).map(|_| BTreeMap::new()).collect()).collect(),
+        tbl: (0..NTF)
+            .map(|_| (0..NPFX).map(|_| BTreeMap::new()).collect())
+            .collect(),
         obs_released: [false; NTF],
         held_inserts: [0; NTF],
         readded: [[false; NTF]; NP],
@@ -1018,24 +1305,52 @@ async fn run_ops(env: &Env, cfg: &Cfg, ops: &[Op], global: GlobalHandle, st: &mu
     let viol = match r {
         Ok(()) => {
             if sys.unknown_net {
-                Some(viol("exactly-once", "final", "unknown-prefix-announced", "an NlriChange for a prefix that was never inserted reached the channel".into(), ops.len(), "".into(), "".into()))
+                Some(viol(
+                    "exactly-once",
+                    "final",
+                    "unknown-prefix-announced",
+                    "an NlriChange for a prefix that was never inserted reached the channel".into(),
+                    ops.len(),
+                    "".into(),
+                    "".into(),
+                ))
             } else {
                 None
             }
         }
         Err(v) => Some(v),
     };
-    let out = RunOut { viol, judged: j.judged, nontrivial: j.nontrivial, trace };
+    let out = RunOut {
+        viol,
+        judged: j.judged,
+        nontrivial: j.nontrivial,
+        trace,
+    };
     sys.finish().await;
     out
 }
 
-async fn run_ops_inner(sys: &mut Sys<'_>, j: &mut Judge, ops: &[Op], st: &mut Stats, want_trace: bool, trace: &mut Vec<String>) -> Result<(), Viol> {
+async fn run_ops_inner(
+    sys: &mut Sys<'_>,
+    j: &mut Judge,
+    ops: &[Op],
+    st: &mut Stats,
+    want_trace: bool,
+    trace: &mut Vec<String>,
+) -> Result<(), Viol> {
     // startup: the restarting flag must be set iff something is deferred
     {
         let g = sys.global.read().await;
         if j.model.deferred != 0 && g.selection_deferral.is_none() {
-            return Err(viol("held", "setup", "no-deferral-at-startup", "configured helper peers exist but no deferral was set up".into(), 0, "selection_deferral = None".into(), "Some".into()));
+            return Err(viol(
+                "held",
+                "setup",
+                "no-deferral-at-startup",
+                "configured helper peers exist but no deferral was set up".into(),
+                0,
+                "selection_deferral = None".into(),
+                "Some".into(),
+            ));
         }
     }
     for (step, op) in ops.iter().enumerate() {
@@ -1054,9 +1369,21 @@ async fn run_ops_inner(sys: &mut Sys<'_>, j: &mut Judge, ops: &[Op], st: &mut St
                 if want_trace {
                     trace.push(op_str(op));
                 }
-                let a = judged_insert(sys, j, st, *f as usize, *x as usize, *s as usize, step, "insert")?;
+                let a = judged_insert(
+                    sys,
+                    j,
+                    st,
+                    *f as usize,
+                    *x as usize,
+                    *s as usize,
+                    step,
+                    "insert",
+                )?;
                 if want_trace {
-                    trace.push(format!("  -> {}", if a { "announced" } else { "held back" }));
+                    trace.push(format!(
+                        "  -> {}",
+                        if a { "announced" } else { "held back" }
+                    ));
                 }
             }
             Op::Ev(ev) => {
@@ -1064,16 +1391,30 @@ async fn run_ops_inner(sys: &mut Sys<'_>, j: &mut Judge, ops: &[Op], st: &mut St
                 if want_trace {
                     trace.push(op_str(op));
                 }
-                let applied = sys.feed(ev, if want_trace { Some(&mut *trace) } else { None }).await;
+                let applied = sys
+                    .feed(ev, if want_trace { Some(&mut *trace) } else { None })
+                    .await;
                 if !applied {
-                    st.add(if matches!(ev, Ev::Timer) { "skipped:timer-not-armed" } else { "skipped:eor-on-session-without-gr" });
+                    st.add(if matches!(ev, Ev::Timer) {
+                        "skipped:timer-not-armed"
+                    } else {
+                        "skipped:eor-on-session-without-gr"
+                    });
                     if want_trace {
                         trace.push("  (not applicable: skipped)".into());
                     }
                     // nothing may have happened
                     let ch = sys.drain();
                     if !ch.is_empty() {
-                        return Err(viol("exactly-once", evk, "announce-on-skipped-event", "NlriChanges appeared although no event was fed".into(), step, changes_str(&ch), "[]".into()));
+                        return Err(viol(
+                            "exactly-once",
+                            evk,
+                            "announce-on-skipped-event",
+                            "NlriChanges appeared although no event was fed".into(),
+                            step,
+                            changes_str(&ch),
+                            "[]".into(),
+                        ));
                     }
                     continue;
                 }
@@ -1090,7 +1431,10 @@ async fn run_ops_inner(sys: &mut Sys<'_>, j: &mut Judge, ops: &[Op], st: &mut St
                 match *ev {
                     Ev::Est(p, m) => {
                         for f in 0..NF {
-                            j.readded[p as usize][f] = m & (1 << f) != 0 && j.model.helper[p as usize] != 0 && (!j.model.is_deferred(f) || j.model.st[p as usize][f] == St::Maybe);
+                            j.readded[p as usize][f] = m & (1 << f) != 0
+                                && j.model.helper[p as usize] != 0
+                                && (!j.model.is_deferred(f)
+                                    || j.model.st[p as usize][f] == St::Maybe);
                         }
                     }
                     Ev::Eor(p, f) => j.readded[p as usize][f as usize] = false,
@@ -1100,7 +1444,11 @@ async fn run_ops_inner(sys: &mut Sys<'_>, j: &mut Judge, ops: &[Op], st: &mut St
                 j.judged += 1;
                 let ch = sys.drain();
                 if want_trace {
-                    trace.push(format!("  channel -> {}   model: {}", changes_str(&ch), j.model.describe()));
+                    trace.push(format!(
+                        "  channel -> {}   model: {}",
+                        changes_str(&ch),
+                        j.model.describe()
+                    ));
                 }
                 for f in 0..NTF {
                     let chf: Vec<&Change> = ch.iter().filter(|c| c.0 as usize == f).collect();
@@ -1116,12 +1464,20 @@ async fn run_ops_inner(sys: &mut Sys<'_>, j: &mut Judge, ops: &[Op], st: &mut St
                                     // was not pending for, or a peer that re-negotiated a
                                     // family which was already released / never deferred
                                     let stray_eor = matches!(ev, Ev::Eor(p, ef) if *ef as usize == f && !was_readded[*p as usize][f]);
-                                    if stray_eor { "reannounce-on-eor-for-non-pending-family" } else { "reannounce-after-renegotiation" }
+                                    if stray_eor {
+                                        "reannounce-on-eor-for-non-pending-family"
+                                    } else {
+                                        "reannounce-after-renegotiation"
+                                    }
                                 },
                                 format!(
                                     "{} ({}) was dumped to the peer channel again: every prefix is announced a second time",
                                     FAM_NAME[f],
-                                    if deferred { "already released" } else { "never deferred" }
+                                    if deferred {
+                                        "already released"
+                                    } else {
+                                        "never deferred"
+                                    }
                                 ),
                                 step,
                                 changes_str(&ch),
@@ -1137,7 +1493,10 @@ async fn run_ops_inner(sys: &mut Sys<'_>, j: &mut Judge, ops: &[Op], st: &mut St
                                 "release-early",
                                 evk,
                                 j.model.blocker_fact(f),
-                                format!("{} was released although a configured helper peer is still pending for it", FAM_NAME[f]),
+                                format!(
+                                    "{} was released although a configured helper peer is still pending for it",
+                                    FAM_NAME[f]
+                                ),
                                 step,
                                 changes_str(&ch),
                                 format!("held (model: {})", j.model.describe()),
@@ -1150,10 +1509,16 @@ async fn run_ops_inner(sys: &mut Sys<'_>, j: &mut Judge, ops: &[Op], st: &mut St
                             let fact = if want.is_empty() && n > 0 {
                                 Some("dump-unknown-prefix")
                             } else if !want.is_empty() && n == 0 {
-                                Some(if want.len() == 1 { "dump-missing-single-path-prefix" } else { "dump-missing-prefix" })
+                                Some(if want.len() == 1 {
+                                    "dump-missing-single-path-prefix"
+                                } else {
+                                    "dump-missing-prefix"
+                                })
                             } else if n > 1 {
                                 Some("dump-duplicate-prefix")
-                            } else if n == 1 && chf.iter().find(|c| c.1 as usize == x).unwrap().2 != want {
+                            } else if n == 1
+                                && chf.iter().find(|c| c.1 as usize == x).unwrap().2 != want
+                            {
                                 Some("dump-wrong-paths")
                             } else {
                                 None
@@ -1163,7 +1528,10 @@ async fn run_ops_inner(sys: &mut Sys<'_>, j: &mut Judge, ops: &[Op], st: &mut St
                                     "exactly-once",
                                     evk,
                                     fact,
-                                    format!("at the release of {} the prefixes received meanwhile were not each announced exactly once with their full path list", FAM_NAME[f]),
+                                    format!(
+                                        "at the release of {} the prefixes received meanwhile were not each announced exactly once with their full path list",
+                                        FAM_NAME[f]
+                                    ),
                                     step,
                                     changes_str(&ch),
                                     format!("{}#{} -> {:?}", FAM_NAME[f], x, want),
@@ -1193,8 +1561,18 @@ async fn run_ops_inner(sys: &mut Sys<'_>, j: &mut Judge, ops: &[Op], st: &mut St
                     } else if j.model.must_release(f) {
                         // nothing was dumped: decide by probing every shard with an insert
                         let had = j.table_nonempty(f);
-                        let late_clause = if matches!(ev, Ev::Est(_, 0)) || (matches!(ev, Ev::Est(p, _) if j.model.helper[*p as usize] == 0)) { "non-gr-blocks" } else { "release-late" };
-                        let late_fact = if j.model.timer_fired { "timer-fired" } else { "no-peer-pending" };
+                        let late_clause = if matches!(ev, Ev::Est(_, 0))
+                            || (matches!(ev, Ev::Est(p, _) if j.model.helper[*p as usize] == 0))
+                        {
+                            "non-gr-blocks"
+                        } else {
+                            "release-late"
+                        };
+                        let late_fact = if j.model.timer_fired {
+                            "timer-fired"
+                        } else {
+                            "no-peer-pending"
+                        };
                         let mut any_silent = false;
                         let mut any_announced = false;
                         for x in 0..(sys.cfg.shards as usize).min(NPFX) {
@@ -1212,10 +1590,19 @@ async fn run_ops_inner(sys: &mut Sys<'_>, j: &mut Judge, ops: &[Op], st: &mut St
                             return Err(viol(
                                 late_clause,
                                 evk,
-                                &format!("{}{}", late_fact, if any_announced { "-some-shards" } else { "" }),
-                                format!("{} stays deferred although no configured helper peer is pending for it any more / the timer fired (model before the event: {})", FAM_NAME[f], before.describe()),
+                                &format!(
+                                    "{}{}",
+                                    late_fact,
+                                    if any_announced { "-some-shards" } else { "" }
+                                ),
+                                format!(
+                                    "{} stays deferred although no configured helper peer is pending for it any more / the timer fired (model before the event: {})",
+                                    FAM_NAME[f],
+                                    before.describe()
+                                ),
                                 step,
-                                "no release: nothing dumped, a probe insert is still suppressed".into(),
+                                "no release: nothing dumped, a probe insert is still suppressed"
+                                    .into(),
                                 format!("release in this step (model: {})", j.model.describe()),
                             ));
                         }
@@ -1224,7 +1611,10 @@ async fn run_ops_inner(sys: &mut Sys<'_>, j: &mut Judge, ops: &[Op], st: &mut St
                                 "exactly-once",
                                 evk,
                                 "released-without-announcing-held-prefixes",
-                                format!("{} stopped deferring but the prefixes received meanwhile were never announced", FAM_NAME[f]),
+                                format!(
+                                    "{} stopped deferring but the prefixes received meanwhile were never announced",
+                                    FAM_NAME[f]
+                                ),
                                 step,
                                 "no NlriChange at release".into(),
                                 "a dump of every held prefix".into(),
@@ -1245,7 +1635,11 @@ async fn run_ops_inner(sys: &mut Sys<'_>, j: &mut Judge, ops: &[Op], st: &mut St
                     if j.model.deferred != 0 && j.model.all_must_release() {
                         st.add("terminates:judged");
                         if flag {
-                            let completed = g.selection_deferral.as_ref().map(|d| d.is_completed()).unwrap_or(false);
+                            let completed = g
+                                .selection_deferral
+                                .as_ref()
+                                .map(|d| d.is_completed())
+                                .unwrap_or(false);
                             return Err(viol(
                                 "terminates",
                                 evk,
@@ -1302,7 +1696,12 @@ fn new_global() -> GlobalHandle {
 }
 
 impl Ctx {
-    fn exec(&mut self, cfg: &Cfg, ops: &[Op], want_trace: bool) -> Result<RunOut, (String, String)> {
+    fn exec(
+        &mut self,
+        cfg: &Cfg,
+        ops: &[Op],
+        want_trace: bool,
+    ) -> Result<RunOut, (String, String)> {
         let global = self.global.clone();
         let env = &self.env;
         let rt = &self.rt;
@@ -1312,7 +1711,10 @@ impl Ctx {
             Err(p) => {
                 // state may be inconsistent after a panic: fresh global
                 self.global = new_global();
-                Err((format!("C11/panic/{}:{}", p.location, panic_class(&p.message)), p.message))
+                Err((
+                    format!("C11/panic/{}:{}", p.location, panic_class(&p.message)),
+                    p.message,
+                ))
             }
         }
     }
@@ -1355,9 +1757,17 @@ impl Ctx {
                 Some(sig.clone())
             }
         };
-        if self.rep.want_sample() && sig.is_none() && r.as_ref().map(|o| o.nontrivial).unwrap_or(false) && self.rep.evaluations % 7 == 3 {
+        if self.rep.want_sample()
+            && sig.is_none()
+            && r.as_ref().map(|o| o.nontrivial).unwrap_or(false)
+            && self.rep.evaluations % 7 == 3
+        {
             if let Ok(o) = self.exec(cfg, ops, true) {
-                self.rep.sample(Json::obj(vec![("origin", Json::s(origin)), ("config", cfg.json()), ("trace", Json::strs(o.trace))]));
+                self.rep.sample(Json::obj(vec![
+                    ("origin", Json::s(origin)),
+                    ("config", cfg.json()),
+                    ("trace", Json::strs(o.trace)),
+                ]));
             }
         }
         let Some(sig) = sig else { return };
@@ -1384,10 +1794,16 @@ impl Ctx {
             }
             let mut cands: Vec<Cfg> = Vec::new();
             if cfg.shards > 1 {
-                cands.push(Cfg { shards: 1, ..cfg.clone() });
+                cands.push(Cfg {
+                    shards: 1,
+                    ..cfg.clone()
+                });
             }
             if cfg.mode == Mode::Session {
-                cands.push(Cfg { mode: Mode::Glue, ..cfg.clone() });
+                cands.push(Cfg {
+                    mode: Mode::Glue,
+                    ..cfg.clone()
+                });
             }
             for p in 0..NP {
                 for f in 0..NF {
@@ -1412,7 +1828,11 @@ impl Ctx {
                 for f in 0..NF {
                     if m & (1 << f) != 0 {
                         let mut cand = ops.clone();
-                        let cur = if let Op::Ev(Ev::Est(_, cm)) = cand[i] { cm } else { m };
+                        let cur = if let Op::Ev(Ev::Est(_, cm)) = cand[i] {
+                            cm
+                        } else {
+                            m
+                        };
                         if cur & (1 << f) == 0 {
                             continue;
                         }
@@ -1427,7 +1847,10 @@ impl Ctx {
         let (what, witness) = match self.exec(&cfg, &ops, true) {
             Ok(o) => {
                 let v = o.viol.clone();
-                let what = v.as_ref().map(|v| v.what.clone()).unwrap_or_else(|| "violation not reproduced after shrinking".into());
+                let what = v
+                    .as_ref()
+                    .map(|v| v.what.clone())
+                    .unwrap_or_else(|| "violation not reproduced after shrinking".into());
                 (
                     what,
                     Json::obj(vec![
@@ -1435,17 +1858,34 @@ impl Ctx {
                         ("config", cfg.json()),
                         ("replay_code", Json::s(replay_code(&cfg, &ops))),
                         ("ops", Json::strs(ops.iter().map(op_str))),
-                        ("events_only", Json::strs(ops.iter().filter(|o| matches!(o, Op::Ev(_))).map(op_str))),
-                        ("failing_step", Json::Int(v.as_ref().map(|v| v.step as i128).unwrap_or(-1))),
-                        ("observed", Json::s(v.as_ref().map(|v| v.observed.clone()).unwrap_or_default())),
-                        ("expected", Json::s(v.as_ref().map(|v| v.expected.clone()).unwrap_or_default())),
+                        (
+                            "events_only",
+                            Json::strs(ops.iter().filter(|o| matches!(o, Op::Ev(_))).map(op_str)),
+                        ),
+                        (
+                            "failing_step",
+                            Json::Int(v.as_ref().map(|v| v.step as i128).unwrap_or(-1)),
+                        ),
+                        (
+                            "observed",
+                            Json::s(v.as_ref().map(|v| v.observed.clone()).unwrap_or_default()),
+                        ),
+                        (
+                            "expected",
+                            Json::s(v.as_ref().map(|v| v.expected.clone()).unwrap_or_default()),
+                        ),
                         ("trace", Json::strs(o.trace)),
                     ]),
                 )
             }
             Err((_, msg)) => (
                 format!("panic: {}", msg),
-                Json::obj(vec![("origin", Json::s(origin)), ("config", cfg.json()), ("ops", Json::strs(ops.iter().map(op_str))), ("panic", Json::s(msg))]),
+                Json::obj(vec![
+                    ("origin", Json::s(origin)),
+                    ("config", cfg.json()),
+                    ("ops", Json::strs(ops.iter().map(op_str))),
+                    ("panic", Json::s(msg)),
+                ]),
             ),
         };
         self.rep.violation(&sig, &what, witness);
@@ -1467,24 +1907,48 @@ fn schedule(events: &[Ev], variant: u64, shards: u8, deferred: u8) -> Vec<Op> {
     // prologue: one route per family (shard alternating with the variant), and a
     // second path / a route on the other shard for one rotating family
     for f in 0..NTF {
-        ops.push(Op::Ins(f as u8, ((v >> f) & 1) as u8, ((v + f) % NSRC) as u8));
+        ops.push(Op::Ins(
+            f as u8,
+            ((v >> f) & 1) as u8,
+            ((v + f) % NSRC) as u8,
+        ));
     }
     let mf = (v / 16) % NTF;
-    let mx = if (v / 64) % 2 == 0 { (v >> mf) & 1 } else { 1 - ((v >> mf) & 1) };
-    ops.push(Op::Ins(mf as u8, mx as u8, ((v + mf + 1 + (v / 128) % 3) % NSRC) as u8));
+    let mx = if (v / 64) % 2 == 0 {
+        (v >> mf) & 1
+    } else {
+        1 - ((v >> mf) & 1)
+    };
+    ops.push(Op::Ins(
+        mf as u8,
+        mx as u8,
+        ((v + mf + 1 + (v / 128) % 3) % NSRC) as u8,
+    ));
     // in one history out of four a new session establishes at one point
     // (after the prologue or after one of the events)
-    let sess_at = if (v >> 20) & 3 == 0 { Some((v >> 22) % (events.len() + 1)) } else { None };
+    let sess_at = if (v >> 20) & 3 == 0 {
+        Some((v >> 22) % (events.len() + 1))
+    } else {
+        None
+    };
     if sess_at == Some(0) {
         ops.push(Op::Sess);
     }
     for (i, ev) in events.iter().enumerate() {
         ops.push(Op::Ev(*ev));
         let f1 = (v + i) % NTF;
-        ops.push(Op::Ins(f1 as u8, ((v / 2 + i) % NPFX) as u8, ((v / 8 + i) % NSRC) as u8));
+        ops.push(Op::Ins(
+            f1 as u8,
+            ((v / 2 + i) % NPFX) as u8,
+            ((v / 8 + i) % NSRC) as u8,
+        ));
         if (v >> (8 + i)) & 1 == 1 {
             let f2 = (f1 + 1 + (v / 4) % 3) % NTF;
-            ops.push(Op::Ins(f2 as u8, ((v / 4 + i + 1) % NPFX) as u8, ((v + i + 1) % NSRC) as u8));
+            ops.push(Op::Ins(
+                f2 as u8,
+                ((v / 4 + i + 1) % NPFX) as u8,
+                ((v + i + 1) % NSRC) as u8,
+            ));
         }
         if sess_at == Some(i + 1) {
             ops.push(Op::Sess);
@@ -1540,7 +2004,17 @@ fn restrict(mut h: [u8; NP], peers: usize, fams: usize) -> [u8; NP] {
 /// only by a renaming of the peers are run once (the representative mentions
 /// the peers in the order p1, p2, p3); the others are counted as
 /// `…:skipped-by-peer-symmetry`.  The unreduced enumeration is in the thorough tier.
-fn run_exhaustive(ctx: &mut Ctx, cfgname: &str, depth: usize, peers: usize, fams: usize, shard: u64, nshards: u64, mode: Mode, sym: bool) -> bool {
+fn run_exhaustive(
+    ctx: &mut Ctx,
+    cfgname: &str,
+    depth: usize,
+    peers: usize,
+    fams: usize,
+    shard: u64,
+    nshards: u64,
+    mode: Mode,
+    sym: bool,
+) -> bool {
     let alpha = alphabet(peers, fams);
     let n = alpha.len();
     let helper = restrict(named_cfg(cfgname), peers, fams);
@@ -1550,7 +2024,11 @@ fn run_exhaustive(ctx: &mut Ctx, cfgname: &str, depth: usize, peers: usize, fams
     let mut complete = true;
     let mut count = 0u64;
     'outer: loop {
-        let key = if depth >= 2 { idx[0] * n + idx[1] } else { idx[0] };
+        let key = if depth >= 2 {
+            idx[0] * n + idx[1]
+        } else {
+            idx[0]
+        };
         let canonical = !sym || {
             let mut next_new = 0u8;
             idx.iter().all(|i| {
@@ -1578,7 +2056,12 @@ fn run_exhaustive(ctx: &mut Ctx, cfgname: &str, depth: usize, peers: usize, fams
             }
             let variant = h ^ (h >> 13);
             let shards = 1 + (variant % 2) as u8;
-            let cfg = Cfg { helper, timer: true, shards, mode };
+            let cfg = Cfg {
+                helper,
+                timer: true,
+                shards,
+                mode,
+            };
             let ops = schedule(&events, variant / 2, shards, cfg.deferred());
             ctx.case(&cfg, &ops, "exhaustive");
             count += 1;
@@ -1601,12 +2084,27 @@ fn run_exhaustive(ctx: &mut Ctx, cfgname: &str, depth: usize, peers: usize, fams
             idx[d] = 0;
         }
     }
-    ctx.rep.count_n(&format!("exhaustive:{}:d{}:p{}f{}:{:?}:sequences", cfgname, depth, peers, fams, mode), count);
+    ctx.rep.count_n(
+        &format!(
+            "exhaustive:{}:d{}:p{}f{}:{:?}:sequences",
+            cfgname, depth, peers, fams, mode
+        ),
+        count,
+    );
     if sym {
-        ctx.rep.count_n(&format!("exhaustive:{}:d{}:p{}f{}:{:?}:skipped-by-peer-symmetry", cfgname, depth, peers, fams, mode), skipped_sym);
+        ctx.rep.count_n(
+            &format!(
+                "exhaustive:{}:d{}:p{}f{}:{:?}:skipped-by-peer-symmetry",
+                cfgname, depth, peers, fams, mode
+            ),
+            skipped_sym,
+        );
     }
     if complete {
-        ctx.rep.count(&format!("exhaustive:{}:d{}:p{}f{}:{:?}:complete-shards", cfgname, depth, peers, fams, mode));
+        ctx.rep.count(&format!(
+            "exhaustive:{}:d{}:p{}f{}:{:?}:complete-shards",
+            cfgname, depth, peers, fams, mode
+        ));
     }
     complete
 }
@@ -1614,19 +2112,36 @@ fn run_exhaustive(ctx: &mut Ctx, cfgname: &str, depth: usize, peers: usize, fams
 fn random_cfg(rng: &mut Rng) -> Cfg {
     let mut helper = [0u8; NP];
     for p in 0..NP {
-        helper[p] = if rng.chance(1, 6) { 0 } else { rng.range(1, 7) as u8 };
+        helper[p] = if rng.chance(1, 6) {
+            0
+        } else {
+            rng.range(1, 7) as u8
+        };
     }
     if rng.chance(1, 3) {
         let names: [&str; 5] = ["full", "asym", "chain", "mixed", "single"];
         helper = named_cfg(names[rng.usize(names.len())]);
     }
-    Cfg { helper, timer: rng.chance(5, 6), shards: 1 + rng.below(2) as u8, mode: if rng.chance(1, 2) { Mode::Session } else { Mode::Glue } }
+    Cfg {
+        helper,
+        timer: rng.chance(5, 6),
+        shards: 1 + rng.below(2) as u8,
+        mode: if rng.chance(1, 2) {
+            Mode::Session
+        } else {
+            Mode::Glue
+        },
+    }
 }
 
 fn random_ops(rng: &mut Rng, cfg: &Cfg, alpha: &[Ev], nev: usize) -> Vec<Op> {
     let mut ops = Vec::new();
     let ins = |rng: &mut Rng, ops: &mut Vec<Op>| {
-        ops.push(Op::Ins(rng.below(NTF as u64) as u8, rng.below(NPFX as u64) as u8, rng.below(NSRC as u64) as u8));
+        ops.push(Op::Ins(
+            rng.below(NTF as u64) as u8,
+            rng.below(NPFX as u64) as u8,
+            rng.below(NSRC as u64) as u8,
+        ));
     };
     for _ in 0..rng.range(0, 8) {
         ins(rng, &mut ops);
@@ -1677,7 +2192,11 @@ fn random_ops(rng: &mut Rng, cfg: &Cfg, alpha: &[Ev], nev: usize) -> Vec<Op> {
     // epilogue: every (family, shard)
     for f in 0..NTF {
         for s in 0..cfg.shards as usize {
-            ops.push(Op::Ins(f as u8, (rng.below(2) * 2) as u8 + s as u8, rng.below(NSRC as u64) as u8));
+            ops.push(Op::Ins(
+                f as u8,
+                (rng.below(2) * 2) as u8 + s as u8,
+                rng.below(NSRC as u64) as u8,
+            ));
         }
     }
     ops
@@ -1691,8 +2210,16 @@ fn run_random(ctx: &mut Ctx, rng: &mut Rng, count: u64) {
         let nev = rng.range(1, 40) as usize;
         let ops = random_ops(rng, &cfg, &alpha, nev);
         ctx.case(&cfg, &ops, "random");
-        ctx.rep.count(if cfg.mode == Mode::Session { "random:session-mode" } else { "random:glue-mode" });
-        ctx.rep.count(if cfg.shards == 2 { "random:2-shards" } else { "random:1-shard" });
+        ctx.rep.count(if cfg.mode == Mode::Session {
+            "random:session-mode"
+        } else {
+            "random:glue-mode"
+        });
+        ctx.rep.count(if cfg.shards == 2 {
+            "random:2-shards"
+        } else {
+            "random:1-shard"
+        });
         if !cfg.timer {
             ctx.rep.count("random:timer-disabled");
         }
@@ -1709,10 +2236,23 @@ fn run_random(ctx: &mut Ctx, rng: &mut Rng, count: u64) {
 /// Returns what the session was sent by the initial dump and what it was sent
 /// when the release reached it through its peer channel
 /// (`handle_prefix_update`, as run_select does).
-async fn early_session_scenario(env: &Env, global: GlobalHandle, variant: u8, shards: u8) -> (Vec<(u8, u8)>, Vec<(u8, u8)>, Vec<String>) {
-    let cfg = Cfg { helper: [1, 1, 0], timer: true, shards, mode: Mode::Glue };
+async fn early_session_scenario(
+    env: &Env,
+    global: GlobalHandle,
+    variant: u8,
+    shards: u8,
+) -> (Vec<(u8, u8)>, Vec<(u8, u8)>, Vec<String>) {
+    let cfg = Cfg {
+        helper: [1, 1, 0],
+        timer: true,
+        shards,
+        mode: Mode::Glue,
+    };
     let mut sys = Sys::start(env, &cfg, global, None).await;
-    let mut hist = vec!["insert_route(ipv4, prefix#0, from src1)".to_string(), "insert_route(ipv4, prefix#1, from src2)".to_string()];
+    let mut hist = vec![
+        "insert_route(ipv4, prefix#0, from src1)".to_string(),
+        "insert_route(ipv4, prefix#1, from src2)".to_string(),
+    ];
     sys.insert(0, 0, 0, 1);
     sys.insert(0, 1, 1, 2);
     let _ = sys.drain();
@@ -1749,7 +2289,11 @@ fn run_early_session_scenarios(ctx: &mut Ctx) {
                 Err(p) => {
                     ctx.global = new_global();
                     let sig = format!("C11/panic/{}:{}", p.location, panic_class(&p.message));
-                    ctx.rep.violation(&sig, &format!("early-session scenario panicked: {}", p.message), Json::obj(vec![("scenario", Json::Int(variant as i128))]));
+                    ctx.rep.violation(
+                        &sig,
+                        &format!("early-session scenario panicked: {}", p.message),
+                        Json::obj(vec![("scenario", Json::Int(variant as i128))]),
+                    );
                     continue;
                 }
             };
@@ -1772,7 +2316,11 @@ fn run_early_session_scenarios(ctx: &mut Ctx) {
                 ctx.rep.count("early-session:dump-withheld");
             }
             for x in 0..2u8 {
-                let n = dump.iter().chain(at_release.iter()).filter(|e| **e == (0, x)).count();
+                let n = dump
+                    .iter()
+                    .chain(at_release.iter())
+                    .filter(|e| **e == (0, x))
+                    .count();
                 match n {
                     1 => ctx.rep.count("early-session:prefix-announced-once"),
                     0 => ctx.rep.violation(
@@ -1799,14 +2347,23 @@ fn run_early_session_scenarios(ctx: &mut Ctx) {
 fn run_machine(ctx: &mut Ctx, cfgname: &str, depth: usize, shard: u64, nshards: u64) -> bool {
     let alpha = alphabet(NP, NF);
     let n = alpha.len();
-    let cfg = Cfg { helper: named_cfg(cfgname), timer: true, shards: 1, mode: Mode::Glue };
+    let cfg = Cfg {
+        helper: named_cfg(cfgname),
+        timer: true,
+        shards: 1,
+        mode: Mode::Glue,
+    };
     let peers = ctx.env.peers;
     let mut idx = vec![0usize; depth];
     let mut complete = true;
     let mut count = 0u64;
     let mut judged = 0u64;
     'outer: loop {
-        let key = if depth >= 2 { idx[0] * n + idx[1] } else { idx[0] };
+        let key = if depth >= 2 {
+            idx[0] * n + idx[1]
+        } else {
+            idx[0]
+        };
         if key as u64 % nshards == shard {
             let events: Vec<Ev> = idx.iter().map(|i| alpha[*i]).collect();
             let r = guard(|| machine_case(&cfg, &peers, &events));
@@ -1817,10 +2374,27 @@ fn run_machine(ctx: &mut Ctx, cfgname: &str, depth: usize, shard: u64, nshards: 
                     if nt {
                         ctx.st.add("machine:nontrivial");
                     }
-                    ctx.st.add_n("unjudged:machine-signal-for-released-or-nondeferred-family", unj);
-                    v.map(|v| (v.sig(), v.what.clone(), v.observed.clone(), v.expected.clone(), v.step as i128))
+                    ctx.st.add_n(
+                        "unjudged:machine-signal-for-released-or-nondeferred-family",
+                        unj,
+                    );
+                    v.map(|v| {
+                        (
+                            v.sig(),
+                            v.what.clone(),
+                            v.observed.clone(),
+                            v.expected.clone(),
+                            v.step as i128,
+                        )
+                    })
                 }
-                Err(p) => Some((format!("C11/panic/{}:{}", p.location, panic_class(&p.message)), p.message.clone(), "panic".into(), "".into(), -1)),
+                Err(p) => Some((
+                    format!("C11/panic/{}:{}", p.location, panic_class(&p.message)),
+                    p.message.clone(),
+                    "panic".into(),
+                    "".into(),
+                    -1,
+                )),
             };
             if let Some((sig, what, observed, expected, step)) = v {
                 // shrink by dropping events
@@ -1832,7 +2406,11 @@ fn run_machine(ctx: &mut Ctx, cfgname: &str, depth: usize, shard: u64, nshards: 
                     cand.remove(i);
                     let s2 = match guard(|| machine_case(&cfg, &peers, &cand)) {
                         Ok((v, ..)) => v.map(|v| v.sig()),
-                        Err(p) => Some(format!("C11/panic/{}:{}", p.location, panic_class(&p.message))),
+                        Err(p) => Some(format!(
+                            "C11/panic/{}:{}",
+                            p.location,
+                            panic_class(&p.message)
+                        )),
                     };
                     if s2.as_deref() == Some(sig.as_str()) {
                         evs = cand;
@@ -1844,8 +2422,14 @@ fn run_machine(ctx: &mut Ctx, cfgname: &str, depth: usize, shard: u64, nshards: 
                     Json::obj(vec![
                         ("origin", Json::s("machine-only")),
                         ("config", cfg.json()),
-                        ("events_only", Json::strs(evs.iter().map(|e| op_str(&Op::Ev(*e))))),
-                        ("unshrunk", Json::strs(events.iter().map(|e| op_str(&Op::Ev(*e))))),
+                        (
+                            "events_only",
+                            Json::strs(evs.iter().map(|e| op_str(&Op::Ev(*e)))),
+                        ),
+                        (
+                            "unshrunk",
+                            Json::strs(events.iter().map(|e| op_str(&Op::Ev(*e)))),
+                        ),
                         ("failing_step_unshrunk", Json::Int(step)),
                         ("observed", Json::s(observed)),
                         ("expected", Json::s(expected)),
@@ -1871,16 +2455,25 @@ fn run_machine(ctx: &mut Ctx, cfgname: &str, depth: usize, shard: u64, nshards: 
         }
     }
     ctx.rep.evals(judged);
-    ctx.rep.count_n(&format!("machine:{}:d{}:sequences", cfgname, depth), count);
+    ctx.rep
+        .count_n(&format!("machine:{}:d{}:sequences", cfgname, depth), count);
     if complete {
-        ctx.rep.count(&format!("machine:{}:d{}:complete-shards", cfgname, depth));
+        ctx.rep
+            .count(&format!("machine:{}:d{}:complete-shards", cfgname, depth));
     }
     complete
 }
 
 /// returns (violation, judged steps, nontrivial, unjudged signals)
-fn machine_case(cfg: &Cfg, peers: &[IpAddr; NSRC], events: &[Ev]) -> (Option<Viol>, u64, bool, u64) {
-    let gr_peers: FnvHashMap<IpAddr, Vec<Family>> = (0..NP).filter(|p| cfg.helper[*p] != 0).map(|p| (peers[p], mask_families(cfg.helper[p]))).collect();
+fn machine_case(
+    cfg: &Cfg,
+    peers: &[IpAddr; NSRC],
+    events: &[Ev],
+) -> (Option<Viol>, u64, bool, u64) {
+    let gr_peers: FnvHashMap<IpAddr, Vec<Family>> = (0..NP)
+        .filter(|p| cfg.helper[*p] != 0)
+        .map(|p| (peers[p], mask_families(cfg.helper[p])))
+        .collect();
     let (mut rd, init) = RestartingDeferral::new(gr_peers, Some(Duration::from_secs(3600)));
     let mut model = Model::new(cfg);
     let mut defer_mask = 0u8;
@@ -1895,7 +2488,15 @@ fn machine_case(cfg: &Cfg, peers: &[IpAddr; NSRC], events: &[Ev]) -> (Option<Vio
     }
     if defer_mask != model.deferred {
         return (
-            Some(viol("held", "setup", "defer-families-mismatch", "DeferFamilies is not the union of the configured helper families".into(), 0, mask_str(defer_mask), mask_str(model.deferred))),
+            Some(viol(
+                "held",
+                "setup",
+                "defer-families-mismatch",
+                "DeferFamilies is not the union of the configured helper families".into(),
+                0,
+                mask_str(defer_mask),
+                mask_str(model.deferred),
+            )),
             1,
             false,
             0,
@@ -1962,7 +2563,18 @@ fn machine_case(cfg: &Cfg, peers: &[IpAddr; NSRC], events: &[Ev]) -> (Option<Vio
             if signal[f] > 0 {
                 if model.must_hold(f) {
                     return (
-                        Some(viol("release-early", evk, model.blocker_fact(f), format!("the machine completes {} although a configured helper peer is still pending", FAM_NAME[f]), step, summarize_outputs(&outs), format!("held (model: {})", model.describe()))),
+                        Some(viol(
+                            "release-early",
+                            evk,
+                            model.blocker_fact(f),
+                            format!(
+                                "the machine completes {} although a configured helper peer is still pending",
+                                FAM_NAME[f]
+                            ),
+                            step,
+                            summarize_outputs(&outs),
+                            format!("held (model: {})", model.describe()),
+                        )),
                         judged,
                         nontrivial,
                         unj,
@@ -1974,9 +2586,28 @@ fn machine_case(cfg: &Cfg, peers: &[IpAddr; NSRC], events: &[Ev]) -> (Option<Vio
                 released[f] = true;
                 nontrivial = true;
             } else if model.must_release(f) {
-                let clause = if matches!(ev, Ev::Est(_, 0)) { "non-gr-blocks" } else { "release-late" };
+                let clause = if matches!(ev, Ev::Est(_, 0)) {
+                    "non-gr-blocks"
+                } else {
+                    "release-late"
+                };
                 return (
-                    Some(viol(clause, evk, if model.timer_fired { "timer-fired" } else { "no-peer-pending" }, format!("the machine keeps {} deferred although no configured helper peer is pending / the timer fired", FAM_NAME[f]), step, summarize_outputs(&outs), format!("release (model: {})", model.describe()))),
+                    Some(viol(
+                        clause,
+                        evk,
+                        if model.timer_fired {
+                            "timer-fired"
+                        } else {
+                            "no-peer-pending"
+                        },
+                        format!(
+                            "the machine keeps {} deferred although no configured helper peer is pending / the timer fired",
+                            FAM_NAME[f]
+                        ),
+                        step,
+                        summarize_outputs(&outs),
+                        format!("release (model: {})", model.describe()),
+                    )),
                     judged,
                     nontrivial,
                     unj,
@@ -2005,7 +2636,15 @@ fn machine_case(cfg: &Cfg, peers: &[IpAddr; NSRC], events: &[Ev]) -> (Option<Vio
         }
         if model.any_must_hold() && ended {
             return (
-                Some(viol("terminates", evk, "flag-cleared-while-family-held", "the machine completed although a family must still be held".into(), step, summarize_outputs(&outs), format!("deferring (model: {})", model.describe()))),
+                Some(viol(
+                    "terminates",
+                    evk,
+                    "flag-cleared-while-family-held",
+                    "the machine completed although a family must still be held".into(),
+                    step,
+                    summarize_outputs(&outs),
+                    format!("deferring (model: {})", model.describe()),
+                )),
                 judged,
                 nontrivial,
                 unj,
@@ -2023,9 +2662,18 @@ fn run() {
     let rule = "case = one judged step (event or insert_route) of one op history on the coupled RestartingDeferral + TableManager; a history is non-trivial when >=1 deferred family held back >=1 insert and was then released with a non-empty table; distinct by hash of (configuration, op list)";
     let mut rep = Report::new("C11", &params);
     rep.extra("rule", Json::s(rule));
-    let rt = tokio::runtime::Builder::new_current_thread().enable_time().build().expect("tokio runtime");
+    let rt = tokio::runtime::Builder::new_current_thread()
+        .enable_time()
+        .build()
+        .expect("tokio runtime");
     let global = new_global();
-    let mut ctx = Ctx { rep, env: Env::new(), rt, global, st: Stats::default() };
+    let mut ctx = Ctx {
+        rep,
+        env: Env::new(),
+        rt,
+        global,
+        st: Stats::default(),
+    };
     let mut rng = Rng::new(params.seed ^ 0xC11);
 
     let part = params.get("part").unwrap_or("all").to_string();
@@ -2035,7 +2683,11 @@ fn run() {
     let peers = params.get_u64("peers", NP as u64) as usize;
     let fams = params.get_u64("fams", NF as u64) as usize;
     let cfgname = params.get("cfg").unwrap_or("full").to_string();
-    let mode = if params.get("mode") == Some("session") { Mode::Session } else { Mode::Glue };
+    let mode = if params.get("mode") == Some("session") {
+        Mode::Session
+    } else {
+        Mode::Glue
+    };
     let mut exhaustive_ok = true;
 
     if let Some(path) = params.replay.clone() {
@@ -2059,7 +2711,9 @@ fn run() {
             }
             None => ctx.rep.inconclusive("replay file has no usable replay_code (machine-only witnesses are replayed by part=machine)"),
         }
-        let Ctx { mut rep, mut st, .. } = ctx;
+        let Ctx {
+            mut rep, mut st, ..
+        } = ctx;
         st.flush(&mut rep);
         let _ = rep.finish();
         return;
@@ -2074,7 +2728,17 @@ fn run() {
     }
     if part == "exh" {
         for c in cfgname.split('+') {
-            exhaustive_ok &= run_exhaustive(&mut ctx, c, depth, peers, fams, shard, nshards, mode, params.flag("sym"));
+            exhaustive_ok &= run_exhaustive(
+                &mut ctx,
+                c,
+                depth,
+                peers,
+                fams,
+                shard,
+                nshards,
+                mode,
+                params.flag("sym"),
+            );
         }
     }
     if part == "machine" {
@@ -2088,9 +2752,15 @@ fn run() {
     if part == "rnd" {
         run_random(&mut ctx, &mut rng, params.get_u64("count", 2000));
     }
-    let Ctx { mut rep, mut st, .. } = ctx;
+    let Ctx {
+        mut rep, mut st, ..
+    } = ctx;
     st.flush(&mut rep);
-    rep.exhaustive = if part == "rnd" { None } else { Some(exhaustive_ok) };
+    rep.exhaustive = if part == "rnd" {
+        None
+    } else {
+        Some(exhaustive_ok)
+    };
     if !exhaustive_ok {
         rep.inconclusive("time budget ended before the exhaustive enumeration was complete");
     }
